@@ -24,11 +24,19 @@ States == (1..Band) \cup ((M - Band)..(M - 1)) \cup {k * GridStep + 12345 : k \i
 Seeds == { <<0, 0, 0>>, <<0, 0, 1>>, <<0, 1, 0>>, <<0, 1, 5>>, <<1, 0, 0>>, <<3, 2147483647, 2147483647>>,
            <<0, 0, 2147483647>>, <<2, 123456789, 987654321>>, <<0, 20, 7>>, <<3, 0, 12345>> }
 
+\* shapes for randomly initialised tensors: every rank 1..4 with every dimension in 0..2 (empty dimensions
+\* included: "all tensor shapes"), and a few larger ones
+TensorShapes ==
+  UNION {[1..r -> 0..2] : r \in 1..4} \cup {<<7>>, <<3, 5>>, <<5, 3>>, <<2, 3, 4>>, <<4, 1, 3>>, <<2, 1, 3, 2>>, <<1, 2, 1, 5>>}
+RECURSIVE ProdSeq(_)
+ProdSeq(q) == IF q = <<>> THEN 1 ELSE Head(q) * ProdSeq(Tail(q))
+
 Init ==
   /\ rec = <<>>
   /\ \/ \E x \in States, len \in 1..MaxLen : pick = [kind |-> "index", x |-> x, len |-> len]
      \/ \E x \in States, len \in ShuffleLen : pick = [kind |-> "shuffle", x |-> x, len |-> len]
      \/ \E s \in Seeds : pick = [kind |-> "seed", limbs |-> s]
+     \/ \E sh \in TensorShapes : pick = [kind |-> "tensor", shape |-> sh]
 
 Compute ==
   /\ rec = <<>> /\ UNCHANGED pick
@@ -45,6 +53,10 @@ Compute ==
                    [kind |-> "seed", limbs |-> pick.limbs, x |-> x0,
                     m1 |-> RNE24(NextState(x0)).m, e1 |-> RNE24(NextState(x0)).e,
                     m2 |-> RNE24(NextState(NextState(x0))).m, e2 |-> RNE24(NextState(NextState(x0))).e]
+              [] pick.kind = "tensor" ->
+                   \* the contract: dimension i of the data is shape[i] at every nesting position that exists, and the
+                   \* tensor holds prod(shape) entries, each inside the requested interval
+                   [kind |-> "tensor", shape |-> pick.shape, rank |-> Len(pick.shape), count |-> ProdSeq(pick.shape)]
 Next == Compute
 Spec == Init /\ [][Next]_vars
 
